@@ -18,7 +18,9 @@
    isinstance / `is None` / iteration / hashing / ==.  [VOther h t] stands for any object that is
    not an instance of str, bool, int, float, NoneType, list, dict (a tuple, a set, an
    ExperimentInstance, ...): h says whether it is hashable, t identifies the object.
-   A float is the exact rational it denotes (float.as_integer_ratio()); inf/nan are VOther.
+   A float is the exact rational it denotes (float.as_integer_ratio()); the three floats that denote
+   no rational are [VFloatX 0] (inf), [VFloatX 1] (-inf) and [VFloatX 2] (nan): instances of float,
+   hence primitive argument / option values like every other float.
 
    Results are [Ok] or the class of the exception that leaves the code; [EPython] is any
    exception that is not a ConductorError (TypeError, KeyError, AttributeError ...). *)
@@ -65,7 +67,8 @@ Inductive value :=
 | VNone
 | VList (l : list value)
 | VDict (kv : list (value * value))
-| VOther (hashable : bool) (tag : N).
+| VOther (hashable : bool) (tag : N)
+| VFloatX (which : N).
 
 (* a dict with str keys in iteration order: **kwargs, the defaults, a raw task *)
 Definition assoc := list (str * value).
@@ -267,7 +270,7 @@ Definition parse_calls (cs : list call) : result tasks := run_calls shim cs [].
 (* ---------- utils/run_arguments.py, utils/run_options.py ---------- *)
 (* isinstance(x, str) or isinstance(x, bool) or isinstance(x, int) or isinstance(x, float) *)
 Definition primitive (v : value) : bool :=
-  match v with VStr _ | VBool _ | VInt _ | VFloat _ _ => true | _ => false end.
+  match v with VStr _ | VBool _ | VInt _ | VFloat _ _ | VFloatX _ => true | _ => false end.
 
 Definition run_arguments_from_raw (v : value) : result unit :=
   match v with
